@@ -9,10 +9,10 @@ Definition run_c06 (kvs : list (colname * cval)) (q : query) (fkey : colname) : 
   | inr e => err_J e
   | inl c =>
     let a := [res_J dump_c (c_inc c q); res_J dump_c (c_exc c q); res_J dump_c (c_inc c q >>= fun i => c_inc i q);
-              res_J cell_J (c_find c fkey q)] in
+              res_J cell_J (c_find c fkey q); res_J (JO record_J) (c_one_or_none c q)] in
     let r := abs c in
     let b := [res_J dump_r (r_inc r q); res_J dump_r (r_exc r q); res_J dump_r (r_inc r q >>= fun i => r_inc i q);
-              res_J cell_J (r_find r fkey q)] in
-    if J_eqb (JL a) (JL b) then JL (a ++ [res_J (JO record_J) (c_one_or_none c q); dump_c c])
+              res_J cell_J (r_find r fkey q); res_J (JO record_J) (r_one_or_none r q)] in
+    if J_eqb (JL a) (JL b) then JL (a ++ [dump_c c])
     else JL [JS "SPEC<>MODEL"; JL a; JL b]
   end.
